@@ -13,6 +13,9 @@
 #include <stdint.h>
 #include "linkhash.h"
 #include "json_object.h"
+#include <signal.h>
+#include <sys/time.h>
+#include <unistd.h>
 
 #define NK 4
 static const char *KEYS[NK] = {"k0", "k1", "k2", "k3"};
@@ -70,14 +73,30 @@ static const char *check(struct lh_table *t, struct model *m)
 	return NULL;
 }
 
+static const int *cur_ops; static int cur_len; static volatile int cur_step; static unsigned long long wd_last; static int wd_stalls;
+static void wd_tick(int sig)
+{
+	(void)sig;
+	if (steps == wd_last) {
+		if (++wd_stalls >= 2) {
+			char w[256]; int n = 0, j;
+			n += snprintf(w + n, sizeof w - n, "WITNESS hang after step %d:", cur_step);
+			for (j = 0; j <= cur_step && j < cur_len; j++) n += snprintf(w + n, sizeof w - n, " %c%d", "adl"[cur_ops[j] / NK], cur_ops[j] % NK);
+			n += snprintf(w + n, sizeof w - n, "\n");
+			if (write(1, w, (size_t)n)) {}
+			_exit(4);
+		}
+	} else { wd_last = steps; wd_stalls = 0; }
+}
+
 static void run(const int *ops, int len)
 {
 	struct lh_table *t = lh_table_new(tsize, NULL, my_hash, my_equal); struct model m; int i; long ctr = 100;
 	m.n = 0;
-	histories++;
+	histories++; cur_ops = ops; cur_len = len;
 	for (i = 0; i < len; i++) {
 		int op = ops[i] / NK, k = ops[i] % NK; const char *bad; int oldsize = t->size;
-		steps++;
+		steps++; cur_step = i;
 		if (op == 0) {
 			unsigned long h = lh_get_hash(t, KEYS[k]); struct lh_entry *e = lh_table_lookup_entry_w_hash(t, KEYS[k], h);
 			ctr++;
@@ -119,6 +138,7 @@ int main(int argc, char **argv)
 	if (argc < 6) { fprintf(stderr, "usage\n"); return 3; }
 	tsize = atoi(argv[1]); hash_kind = atoi(argv[2]); maxlen = atoi(argv[3]); shard = atoi(argv[4]); nshards = atoi(argv[5]);
 	if (maxlen > 12) maxlen = 12;
+	{ struct itimerval it; signal(SIGALRM, wd_tick); it.it_interval.tv_sec = 10; it.it_interval.tv_usec = 0; it.it_value = it.it_interval; setitimer(ITIMER_REAL, &it, NULL); }
 	for (len = 1; len <= maxlen; len++) {
 		/* odometer over (3*NK)^len; sharded by sequence number */
 		unsigned long long total = 1, s; int i;
